@@ -55,6 +55,12 @@ def build_traj(case, timed):
     else:
         kw = dict(poses_se3=rm.poses_from(P, Q))
     obj = PoseTrajectory3D(timestamps=T.copy(), **kw) if timed else PosePath3D(**kw)
+    for v in case.get("pre", ()):
+        # representations an earlier read-only step (check(), a metric, another export) has materialised
+        try:
+            getattr(obj, v)
+        except Exception:  # noqa  (e.g. non-finite path lengths at the edge of the double range)
+            pass
     return obj, P, Q, T
 
 
@@ -310,6 +316,7 @@ _traj_fields = {
     "t0": st.sampled_from([0.0, 1.5e9 + 0.123456789, 1403636579.763555527, 0.1, 2147483000.25]),
     "dts": st.lists(st.one_of(gen.fl(1e-9, 100.0), st.sampled_from([1e-9, 0.005, 0.1])), min_size=1, max_size=8),
     "mode": st.sampled_from(["pq", "se3"]),
+    "pre": st.lists(st.sampled_from(["positions_xyz", "orientations_quat_wxyz", "poses_se3", "distances"]), max_size=2, unique=True),
 }
 st_traj = st.fixed_dictionaries(dict(_traj_fields, via=st.sampled_from(["str", "pathlib", "handle"]), timed=st.booleans()))
 names = st.text(alphabet="abcdefghijklmnopqrstuvwxyzABC0123456789_-. ", min_size=1, max_size=12).filter(lambda s: s.strip(". ") == s and s.strip() != "")
